@@ -636,7 +636,9 @@ PROPS["C20"] = {
              "directories' includes a change that lands between the start of the watch and the end of the scan). "
              "inflight unit: a first directory of 50..250 files keeps the watcher goroutine busy; 1..4 events are produced in it with drawn "
              "gaps of 0..3 ms and Configure(WithAutoRefresh(false)) is called at once; a Spec written into the second directory after "
-             "Configure returned must not be visible 150 ms later without Refresh() and must be visible after it (F22). "
+             "Configure returned must not be visible 150 ms later without Refresh() and must be visible after it (F22); in half of the rounds the harness owns the "
+             "schedule: it holds the cache's exported mutex while it produces the events (the watcher goroutine has taken one off its channel and waits for the mutex), "
+             "starts Configure in that state and releases both after a drawn 0..2 ms. "
              "Half of the checks first ask Refresh() and GetErrors() only, before any device query, and compare the file-level error keys with a new cache's. "
              "Non-trivial iff >= 3 reconfigurations including an auto switch or a directory-list change, or a shortage window (rapid); "
              ">= 2 cdi.Configure calls (defcache); distinct = distinct histories."),
